@@ -9,7 +9,7 @@ REPO_HOOK_COMMITS = ["ad75fb0"]
 # id -> (category, technique, level text, level note, design ref)
 CLAIMED = {
  "C01": ("exploration", "differential runtime oracle: independent reference semantics vs. Query over generated scenarios",
-         "Runs the real engine over generated ingest/flush/merge histories (three store pairs, six tokenizers, all compressions, FPR 0.5..1e-12) and compares every query result against an independent encoding/json-based reference: every stored row the reference says must be returned is returned; after the generated queries an entry sweep looks up every distinct token, field path and field:token pair the stored rows produce (sampled beyond a cap) on its own. Rows carry planted membership-key collisions; scenarios include rejected (unmarshalable) batches, externally written files, engines behind a MetaStore that leaves all prefiltering to the engine, and a closure-wrapped default tokenizer. Held on the executions observed.",
+         "Runs the real engine over generated ingest/flush/merge histories (three store pairs, eight tokenizers incl. a non-idempotent one, all compressions, FPR 0.5..1e-12) and compares every query result against an independent encoding/json-based reference: every stored row the reference says must be returned is returned; after the generated queries an entry sweep looks up every distinct token, field path and field:token pair the stored rows produce (sampled beyond a cap) on its own. Rows carry planted membership-key collisions; scenarios include rejected (unmarshalable) batches, externally written files, engines behind a MetaStore that leaves all prefiltering to the engine, and a closure-wrapped default tokenizer. Held on the executions observed.",
          "Trusted: harness/refsem (written from README/FILE_FORMAT.md), Go encoding/json, the ledger of ingested rows. Regex patterns come from a fixed family.", "6/C01"),
  "C02": ("exploration", "differential runtime oracle + block-membership reconstruction (must/may) over generated scenarios",
          "Every returned row is checked to be a stored, matching row, never more often than stored; without a prefilter the multiset must be exact; with one the result must be a union of whole blocks between must(block) and may(block). High false-positive rates are over-represented so only row verification keeps non-matching rows out; an entry sweep checks exactness entry by entry (number/bool literals, case-folded words).",
@@ -87,7 +87,7 @@ CLAIMED = {
          "Thousands of mutated files (bit flips, bursts, truncations at structural boundaries, extensions, splices, zeroed ranges; footer re-encoded with consistent CRC and boundary-valued or foreign in-bounds offsets/sizes incl. UncompressedSize and Rows, traded, nested, overlapping or re-ordered filter sections, duplicated / missing / shared blocks; files re-assembled with every checksum consistent but a malformed row stream, filter section, bloom header or size), each written to disk before use: no panic or fatal error, allocation per call bounded by 16x(file + original uncompressed sizes) + 8 MiB, original-metadata queries return the exact answer or an error, every returned row is a written row.",
          "Two defects found by these mutations were repaired in /repo (fa95dcf, f17c844). For deep mutations the wrong-row clause is asserted only where the framed rows are still byte-identical to written rows.", "6/C19"),
  "C26": ("exploration", "statistical probe of every written filter with never-inserted strings against the documented 3x tolerance + 6 sigma",
-         "Filters of every level and kind, holding 1 to 50 000 (thorough 300 000) distinct entries plus volume cases of 600 000 - 1 500 000 entries in one file, at rates 0.3..1e-4, flushed, multi-block and merged, written by one engine or by two engines with different rates sharing the store (each filter probed against the rate its own metadata records), are (quick volume case: 900 000 entries at 1e-4 in one partition) read back through the public helpers and probed with N >= 2e5 absent strings; the observed rate must stay within 3p + 6 sigma.",
+         "Filters of every level and kind, holding 1 to 50 000 (thorough 300 000) distinct entries plus volume cases of 600 000 - 1 500 000 entries in one file, at rates 0.3..1e-4, flushed, multi-block and merged, written by one engine or by two engines with different rates sharing the store (each filter probed against the rate its own metadata records), with texts under one or under several fields (so the three filter kinds hold different numbers of entries), are (quick volume case: 900 000 entries at 1e-4 in one partition) read back through the public helpers and probed with N >= 2e5 absent strings; the observed rate must stay within 3p + 6 sigma.",
          "Statistical: false-alarm probability bounded by the 6 sigma margin plus the 3x slack (worst observed for n >= 50 is about 1.1x). Known finding for n < 50.", "6/C26"),
 }
 
